@@ -215,6 +215,16 @@ fn take_panic() -> (String, String) {
 }
 
 thread_local! {
+    /// Calls that returned a value (not an error) on this thread: lets a storm tell cases that got past argument
+    /// validation from cases that were refused at the door.
+    static OK_CALLS: std::cell::Cell<u64> = const { std::cell::Cell::new(0) };
+}
+
+pub fn ok_calls() -> u64 {
+    OK_CALLS.with(|c| c.get())
+}
+
+thread_local! {
     /// Every panic / internal-assertion error met by `call`/`call_inf` during this run, keyed by location (C03's subject):
     /// location -> (count, first message, case index of the first occurrence)
     static BROKEN: RefCell<BTreeMap<String, (u64, String, u64)>> = const { RefCell::new(BTreeMap::new()) };
@@ -258,7 +268,10 @@ fn strip_numbers(s: &str) -> String {
 #[inline]
 pub fn call<T>(f: impl FnOnce() -> TemporalResult<T>) -> Out<T> {
     match catch_unwind(AssertUnwindSafe(f)) {
-        Ok(Ok(v)) => Out::Ok(v),
+        Ok(Ok(v)) => {
+            OK_CALLS.with(|c| c.set(c.get() + 1));
+            Out::Ok(v)
+        }
         Ok(Err(e)) => {
             if e.kind() == ErrorKind::Assert {
                 note_broken(format!("assert-error: {}", strip_numbers(e.message())), e.message());
@@ -288,7 +301,10 @@ fn broken_key(loc: &str, msg: &str) -> String {
 #[inline]
 pub fn call_inf<T>(f: impl FnOnce() -> T) -> Out<T> {
     match catch_unwind(AssertUnwindSafe(f)) {
-        Ok(v) => Out::Ok(v),
+        Ok(v) => {
+            OK_CALLS.with(|c| c.set(c.get() + 1));
+            Out::Ok(v)
+        }
         Err(_) => {
             let (l, m) = take_panic();
             note_broken(broken_key(&l, &m), &m);
